@@ -339,48 +339,71 @@ func ruleOpenFlagFlow(c *Ctx) {
 		c.R.Unknown("T7-open-flag", "clip.line", p.Pos(fn.Pos()), "clip.line has no boolean (open) parameter")
 		return
 	}
-	var trueBlocks, falseBlocks []*ssa.BasicBlock
-	for _, b := range fn.Blocks {
-		if ifi, ok := b.Instrs[len(b.Instrs)-1].(*ssa.If); ok && ifi.Cond == openPar {
-			trueBlocks = append(trueBlocks, b.Succs[0])
-			falseBlocks = append(falseBlocks, b.Succs[1])
+	// uses of the two region codes in f under its boolean parameter par; a
+	// module helper that receives par as its own boolean parameter is
+	// analysed the same way and each call of it counts for what it does.
+	memo := map[*ssa.Function]int{}
+	var openUses func(f *ssa.Function, par *ssa.Parameter, depth int) int
+	openUses = func(f *ssa.Function, par *ssa.Parameter, depth int) int {
+		if n, ok := memo[f]; ok {
+			return n
 		}
-	}
-	dominatedBy := func(b *ssa.BasicBlock, set []*ssa.BasicBlock) bool {
-		for _, d := range set {
-			if d.Dominates(b) {
-				return true
+		memo[f] = 0
+		name := ShortKey(FuncKey(f))
+		var trueBlocks []*ssa.BasicBlock
+		for _, b := range f.Blocks {
+			if ifi, ok := b.Instrs[len(b.Instrs)-1].(*ssa.If); ok && ifi.Cond == par {
+				trueBlocks = append(trueBlocks, b.Succs[0])
 			}
 		}
-		return false
-	}
-	nOpen := 0
-	for _, b := range fn.Blocks {
-		for i, in := range b.Instrs {
-			call, ok := in.(*ssa.Call)
-			if !ok {
-				continue
-			}
-			callee := call.Call.StaticCallee()
-			if callee == nil {
-				continue
-			}
-			switch ShortKey(FuncKey(callee)) {
-			case "clip.bitCodeOpen":
-				nOpen++
-				cons := fmt.Sprintf("clip.line#bitCodeOpen#%d", nOpen)
-				if dominatedBy(b, trueBlocks) {
-					c.R.OK("T7-open-flag", cons, p.InstrPos(call), "open region code only when the open flag is set")
-				} else {
-					c.R.Bad("T7-open-flag", cons, p.InstrPos(call), "the open region code is used although the open flag may be false: closed clipping would drop boundary points")
-				}
-			case "clip.bitCode":
-				if dominatedBy(b, trueBlocks) {
-					c.R.Bad("T7-open-flag", fmt.Sprintf("clip.line#bitCode@open#%d", i), p.InstrPos(call), "the closed region code is used on the branch taken when the open flag is set")
+		dominatedBy := func(b *ssa.BasicBlock, set []*ssa.BasicBlock) bool {
+			for _, d := range set {
+				if d.Dominates(b) {
+					return true
 				}
 			}
+			return false
 		}
+		n := 0
+		for _, b := range f.Blocks {
+			for i, in := range b.Instrs {
+				call, ok := in.(*ssa.Call)
+				if !ok {
+					continue
+				}
+				callee := call.Call.StaticCallee()
+				if callee == nil {
+					continue
+				}
+				switch ShortKey(FuncKey(callee)) {
+				case "clip.bitCodeOpen":
+					n++
+					cons := fmt.Sprintf("%s#bitCodeOpen#%d", name, n)
+					if dominatedBy(b, trueBlocks) {
+						c.R.OK("T7-open-flag", cons, p.InstrPos(call), "open region code only when the open flag is set")
+					} else {
+						c.R.Bad("T7-open-flag", cons, p.InstrPos(call), "the open region code is used although the open flag may be false: closed clipping would drop boundary points")
+					}
+				case "clip.bitCode":
+					if dominatedBy(b, trueBlocks) {
+						c.R.Bad("T7-open-flag", fmt.Sprintf("%s#bitCode@open#%d", name, i), p.InstrPos(call), "the closed region code is used on the branch taken when the open flag is set")
+					}
+				default:
+					if depth >= 3 || callee.Pkg != f.Pkg || len(callee.Blocks) == 0 {
+						continue
+					}
+					for ai, a := range call.Call.Args {
+						if a == par && ai < len(callee.Params) {
+							n += openUses(callee, callee.Params[ai], depth+1)
+						}
+					}
+				}
+			}
+		}
+		memo[f] = n
+		return n
 	}
+	nOpen := openUses(fn, openPar, 0)
 	if nOpen < 2 {
 		c.R.Bad("T7-open-flag", "clip.line#open-variant-uses", p.Pos(fn.Pos()), fmt.Sprintf("the open region code is consulted %d time(s); both the first point and each segment end need it when the open flag is set", nOpen))
 	}
@@ -403,7 +426,7 @@ func ruleOpenFlagFlow(c *Ctx) {
 				seen := map[ssa.Value]bool{}
 				var walk func(v ssa.Value, d int)
 				walk = func(v ssa.Value, d int) {
-					if v == nil || seen[v] || d > 8 {
+					if v == nil || seen[v] || d > 12 {
 						return
 					}
 					seen[v] = true
@@ -416,6 +439,18 @@ func ruleOpenFlagFlow(c *Ctx) {
 					if f, ok := v.(*ssa.Field); ok {
 						if bt, ok := f.Type().Underlying().(*types.Basic); ok && bt.Kind() == types.Bool {
 							okFlow = true
+						}
+					}
+					if cl, ok := v.(*ssa.Call); ok {
+						// a module helper computing the flag: slice its returns
+						if cal := cl.Call.StaticCallee(); cal != nil && cal.Pkg == w.Pkg {
+							for _, cb := range cal.Blocks {
+								if ret, ok := cb.Instrs[len(cb.Instrs)-1].(*ssa.Return); ok {
+									for _, rv := range ret.Results {
+										walk(rv, d+1)
+									}
+								}
+							}
 						}
 					}
 					if ins, ok := v.(ssa.Instruction); ok {
